@@ -172,6 +172,16 @@ def pump_stops(analysis: Analysis, res: RuleResult, rule: str) -> None:
     run after the final save - e.g. an id request answered over MQTT, whose disconnect is a no-op - is lost)."""
     pw = common.pmap(analysis, pump_worker, ["x"])[0]
     res.add(rule, "task:SyncTasks._poll_queue / every job taken from the queue follows a fresh test of the stop event", pw["pops"] > 0 and not pw["bad"], "mysensors/task.py", f"{pw['pops']} pop events, each after is_set()" if not pw["bad"] else "a job is taken without re-testing the stop event (e.g. `while self.queue or not stopped`): jobs queued at stop() still run after the final save", pw["bad"][0] if pw["bad"] else None)
+    # stop is final: nothing clears the stop event again. stop() leaves the job queue as it is, so a pump revived on
+    # the same object would send what was queued before the stop - after the final save, outside any wake-up burst
+    mod = analysis.p.modules["task"]
+    # the stop event = whatever attribute the pump loop tests with is_set()
+    pump = analysis.p.func("task:SyncTasks._poll_queue")
+    ev_attrs = {n.func.value.attr for n in ast.walk(pump.node) if isinstance(n, ast.Call) and isinstance(n.func, ast.Attribute) and n.func.attr == "is_set" and isinstance(n.func.value, ast.Attribute)}
+    clears = [n for n in ast.walk(mod.tree) if isinstance(n, ast.Call) and isinstance(n.func, ast.Attribute) and n.func.attr == "clear" and isinstance(n.func.value, ast.Attribute) and n.func.value.attr in ev_attrs]
+    for n in clears:
+        res.add(rule, f"{common.func_of_node(analysis, mod, n)} / {unparse(n)}", False, common.where(analysis, mod, n), "the stop event is cleared again: jobs left in the queue at stop() (stop does not drain it) are sent by the revived pump - after the final save and, for a smart sleep node, outside its wake-up burst")
+    res.add(rule, "task / the stop event is one-shot (never cleared)", not clears, "mysensors/task.py", "no clear() of the stop event")
 
 
 def alert_and_stop(analysis: Analysis, res: RuleResult, r1: str = "C14-R1", r2: str = "C14-R2") -> None:
